@@ -104,7 +104,12 @@ def cpp_run(exe, jobs):
             rs = " ".join(f"{fbits(ts)} {i}" for ts, i in t["readings"])
             wl = 1 if (t["readings"] or t.get("with_list")) else 0
             lines.append(f"tick {fbits(t['out'])} {wl} {t.get('control_id', 0) if isinstance(t.get('control_id', 0), int) else 0} {len(t['readings'])} {rs}".rstrip())
-    r = subprocess.run([exe], input="\n".join(lines) + "\n", capture_output=True, text=True, timeout=600)
+    try:
+        r = subprocess.run([exe], input="\n".join(lines) + "\n", capture_output=True, text=True, timeout=120)
+    except subprocess.TimeoutExpired:
+        raise core.ImplementationHangs(
+            "the C++ ManagedFilter (real ManagedFilter.h around the recording filter) did not finish these histories within 120 s; the "
+            "unchanged runtime takes milliseconds", {"histories": [{"cfg": c, "t0": t0, "ticks": h} for c, t0, h in jobs[:6]], "n_histories": len(jobs)})
     if r.returncode != 0:
         raise RuntimeError("managed_trace failed: " + r.stderr[-500:])
     out = r.stdout.split("\n")
